@@ -175,6 +175,31 @@ class Scenario:
                  gradof(p) is None or gradof(w) is None or not np.shares_memory(ar.unwrap(gradof(p)), ar.unwrap(gradof(w))))
         return out
 
+    def _wrapped_frozen(self, env, kind):
+        """round k: the wrapped tensor is frozen (requires_grad False) but still carries a gradient when it is wrapped, and the
+        wrapper is unfrozen afterwards - t is outside the wrapper's graph whatever its flag was at wrapping time"""
+        from synapgrad import nn
+        import synapgrad
+        out = E.Outcome()
+        Tn = T()
+        w = Tn(env.arr("w", (2,)), requires_grad=True)
+        (w * 3.0).backward(Tn(env.arr("g1", (2,))))
+        w.requires_grad = False
+        before = snapshot(gradof(w))
+        p = nn.Parameter(w) if kind == "parameter" else synapgrad.Tensor(w)
+        p.requires_grad = True
+        (p * 5.0).backward(Tn(env.arr("g2", (2,))))
+        out.pair("the frozen wrapped tensor's gradient is untouched by a backward through the unfrozen wrapper (%s)" % kind, snapshot(gradof(w)), before)
+        out.fact("unfrozen wrapper and frozen wrapped tensor do not share a gradient buffer (%s)" % kind,
+                 gradof(p) is None or gradof(w) is None or not np.shares_memory(ar.unwrap(gradof(p)), ar.unwrap(gradof(w))))
+        return out
+
+    def s_wrapped_frozen_tensor_parameter(self, env):
+        return self._wrapped_frozen(env, "parameter")
+
+    def s_wrapped_frozen_tensor_tensor(self, env):
+        return self._wrapped_frozen(env, "tensor")
+
     def s_assigned_gradient_own_buffer(self, env):
         """a gradient handed over through the public .grad setter (copying it from another tensor, or one zero tensor used
         to initialise several parameters) becomes the tensor's own: later backward calls accumulate into the assignee only -
@@ -272,7 +297,8 @@ class Scenario:
 SCENARIOS = ["leaf_root_then_accumulate", "seed_reused_twice", "views_of_one_array", "tensor_used_by_several_ops",
              "clone_detach_independent", "clone_detach_independent_under_no_grad", "loss_target_untouched", "untracked_bridge",
              "wrapped_tensor_own_gradient", "assigned_gradient_own_buffer",
-             "frozen_target_mse", "frozen_target_mse_sum", "frozen_target_bce", "frozen_target_bce_logits"]
+             "frozen_target_mse", "frozen_target_mse_sum", "frozen_target_bce", "frozen_target_bce_logits",
+             "wrapped_frozen_tensor_parameter", "wrapped_frozen_tensor_tensor"]
 
 
 def enumerate_specs(tier):
